@@ -48,22 +48,31 @@ def generate(tier, seed):
         if rng.random() < 0.5:
             pre = " ".join(g.defun(rng.randint(1, 3)) for _ in range(rng.randint(1, 2)))
         prog = relayout(rng, g.program(rng.choice([1, 2])))
-        cases.append((pre, prog, rng.choice(["string", "string", "file", "nested"])))
+        if pre and rng.random() < 0.5: pre = relayout(rng, pre)
+        cases.append((pre, prog, rng.choice(["string", "string", "file", "nested"]), rng.random() < 0.5))
     probe = []
-    for pre, prog, how in cases:
+    for pre, prog, how, lib in cases:
         probe += ["NEW"] + (["EVAL " + C.esc(pre)] if pre else []) + ["FAILAT 0", "EVAL " + C.esc(prog), "NTICKS"]
     ans = C.run_resilient(C.MODEL_BIN, probe, model=True)
     lines, meta = [], []
     i = 0
     fno = 0
-    for pre, prog, how in cases:
+    for pre, prog, how, lib in cases:
         i += 1 + (1 if pre else 0) + 2
         m = re.match(r"NTICKS (\d+)", ans[i] or "")
         n = min(int(m.group(1)) if m else 0, 25 if tier == "quick" else 80)
         i += 1
         for k in range(1, n + 1):
             lines.append("NEW")
-            if pre: lines.append("EVAL " + C.esc(pre))
+            texts = {}
+            if pre and lib:
+                # the functions come from a library file loaded earlier; they fail later, when called from another text
+                fno += 1; lname = "c16_%d_lib.lisp" % fno
+                lines.append("LOADFILE %s %s" % (lname, C.esc(pre)))
+                texts.setdefault(os.path.join(SCRATCH, lname), []).append(pre)
+            elif pre:
+                lines.append("EVAL " + C.esc(pre))
+                texts.setdefault("<eval_string>", []).append(pre)
             lines.append("FAILAT %d" % k)
             if how == "string":
                 lines.append("ERRFMT " + C.esc(prog)); fname = "<eval_string>"
@@ -75,9 +84,11 @@ def generate(tier, seed):
                 lines.append("WRITEFILE %s %s" % (name, C.esc(prog)))
                 lines.append("ERRFMTFILE %s %s" % (outer, C.esc("(progn\n  (load \"%s\"))" % os.path.join(SCRATCH, name))))
                 fname = os.path.join(SCRATCH, name)
-            meta.append((len(lines) - 1, prog, fname, how))
+            texts.setdefault(fname, []).append(prog)
+            if how == "nested":
+                texts.setdefault(os.path.join(SCRATCH, outer), []).append("(progn\n  (load \"%s\"))" % os.path.join(SCRATCH, name))
+            meta.append((len(lines) - 1, prog, fname, how, texts))
             lines.append("TICKS")
-    spans_req = ["SPANS " + C.esc(p) for (_, p, _) in cases]
     return {"lines": lines, "meta": {"entries": meta}, "distribution": {"programs": nprog, "fault_runs": len(meta)}}
 
 ENTRY = re.compile(r"^(.*):(\d+)\.(\d+)-(\d+)\.(\d+):  at (.*)$")
@@ -94,7 +105,7 @@ def normalize(line, ans):
 def oracle(lines, impl, model, meta):
     bad = []
     entries = meta.get("entries", [])
-    progs = sorted({p for (_, p, _, _) in entries})
+    progs = sorted({t for e in entries for ts in e[4].values() for t in ts})
     sp_ans = C.run_resilient(C.MODEL_BIN, ["SPANS " + C.esc(p) for p in progs], model=True)
     spans = {}
     for p, a in zip(progs, sp_ans):
@@ -103,9 +114,14 @@ def oracle(lines, impl, model, meta):
             s.add((int(m.group(2)), int(m.group(3)), int(m.group(4)), int(m.group(5))))
         spans[p] = s
     nlocated = 0
-    for (idx, prog, fname, how) in entries:
+    for (idx, prog, fname, how, texts) in entries:
         a = impl[idx] or ""
-        case = [lines[idx]]
+        case = []
+        j = idx
+        while j >= 0 and lines[j] != "NEW": j -= 1
+        case = lines[j:idx + 2]
+        if a.startswith("PANIC"):
+            bad.append(("rendering or evaluating panicked", case, idx - j, a, None)); continue
         if not a.startswith("ERR "):
             continue            # the k-th tick was not reached as a failure (e.g. an earlier error): nothing to locate
         msg = a[4:].replace("\\\\", "\x00").replace("\\n", "\n").replace("\x00", "\\")
@@ -116,32 +132,33 @@ def oracle(lines, impl, model, meta):
             if not m:
                 continue
             ents.append((m.group(1), int(m.group(2)), int(m.group(3)), int(m.group(4)), int(m.group(5)), m.group(6)))
-        if "tick failure" not in msg.split("\n")[0]:
+        if len(ents) >= 2: nlocated += 1
+        # every entry: a text that was evaluated, start < end, the extent of a form written in (one of) the text(s) of that name
+        flagged = False
+        for e in ents:
+            if e[0] not in texts:
+                bad.append(("entry names a text that was not evaluated: %s" % e[0], case, idx - j, a, None)); flagged = True; break
+            if not ((e[1], e[2]) < (e[3], e[4])):
+                bad.append(("entry with start >= end: %s" % (e,), case, idx - j, a, None)); flagged = True; break
+            if not any((e[1], e[2], e[3], e[4]) in spans[t] for t in texts[e[0]]):
+                bad.append(("entry extent %d.%d-%d.%d is not the extent of a form of the text %s" % (e[1:5] + (e[0],)), case, idx - j, a, None)); flagged = True; break
+        if flagged or "tick failure" not in msg.split("\n")[0]:
             continue
-        # which tick failed: the last one logged
+        # which tick failed: the last one logged; the generator knows where that call is written
         tl = impl[idx + 1] or ""
         ids = [x for x in tl[6:].split(",") if x]
         if not ids: continue
         tid = ids[-1]
-        off = prog.find("(tick %s)" % tid)
-        if off < 0: continue
-        exp_s = pos_of(prog, off); exp_e = pos_of(prog, off + len("(tick %s)" % tid))
-        inner = [e for e in ents if e[0] == fname]
-        if len(ents) >= 2: nlocated += 1
-        ok_files = {fname, "<eval_string>", os.path.join(SCRATCH, os.path.basename(fname).replace(".lisp", "_outer.lisp"))}
-        for e in ents:
-            if e[0] not in ok_files:
-                bad.append(("entry names a text that was not evaluated: %s" % e[0], case, 0, a, None)); break
-            if not ((e[1], e[2]) < (e[3], e[4])):
-                bad.append(("entry with start >= end: %s" % (e,), case, 0, a, None)); break
-            if e[0] == fname and (e[1], e[2], e[3], e[4]) not in spans[prog]:
-                bad.append(("entry extent %d.%d-%d.%d is not the extent of a form of the text" % e[1:5], case, 0, a, None)); break
-        else:
-            if not inner:
-                bad.append(("no located entry for a failing host call", case, 0, a, None))
-            elif (inner[0][1], inner[0][2]) != exp_s or (inner[0][3], inner[0][4]) != exp_e:
-                bad.append(("innermost entry %d.%d-%d.%d is not the failing call (tick %s) at %d.%d-%d.%d"
-                            % (inner[0][1:5] + (tid,) + exp_s + exp_e), case, 0, a, None))
+        where = [(n, t) for n, ts in texts.items() for t in ts if ("(tick %s)" % tid) in t]
+        if len(where) != 1 or where[0][1].count("(tick %s)" % tid) != 1: continue
+        wname, wtext = where[0]
+        off = wtext.find("(tick %s)" % tid)
+        exp_s = pos_of(wtext, off); exp_e = pos_of(wtext, off + len("(tick %s)" % tid))
+        if not ents:
+            bad.append(("no located entry for a failing host call", case, idx - j, a, None))
+        elif ents[0][0] != wname or (ents[0][1], ents[0][2]) != exp_s or (ents[0][3], ents[0][4]) != exp_e:
+            bad.append(("innermost entry %s:%d.%d-%d.%d is not the failing call (tick %s) at %s:%d.%d-%d.%d"
+                        % (ents[0][0:5] + (tid, wname) + exp_s + exp_e), case, idx - j, a, None))
     meta["located"] = nlocated
     return bad
 
